@@ -251,6 +251,11 @@ func (n *node) readdir() ([]fuse.DirEntry, syscall.Errno) {
 
 	// Append whiteouts if no entry replaces the target entry in the lower layer.
 	for w, id := range whiteouts {
+		if strings.HasPrefix(w[len(whiteoutPrefix):], whiteoutPrefix) {
+			// The target of this whiteout is itself a reserved ".wh." name, which
+			// Lookup never resolves; don't list a name that can't be looked up.
+			continue
+		}
 		if !normalEnts[w[len(whiteoutPrefix):]] {
 			ino, err := n.fs.inodeOfID(id)
 			if err != nil {
